@@ -12,8 +12,7 @@ reports exactly the true shortest-path distances, has no node for unreachable ve
 edges form root paths of those lengths and `first` is the child of the root on the path.  The driver runs
 the certificate on every tree the C++ builds, so exactness is verified per run with a proved checker.
 `c12_dijkstra` (below): the literal Dijkstra model always passes its own certificate.
-`c12_consistency_partial` (not proved): the S-level uniqueness theorems behind mutual consistency (reversal,
-sub-paths); consistency is checked per run (`checkConsistent`).
+Mutual consistency (reversal, sub-path closure) is `c12_consistency` in Props/C12b.lean.
 -/
 namespace Parmcb.C12
 open Parmcb
